@@ -36,6 +36,38 @@ def long_sessions(rng, tier):
     return out
 
 
+def queued_ticks(rng, tier):
+    """events of one type wait on the client under SEVERAL ticks (their update messages are late); then all update messages
+    arrive in one client frame together with a fresh event of that type: everything is handed over in sending order"""
+    out = []
+    for i in range(24 if tier == "quick" else 800):
+        ncl = rng.choice([1, 2])
+        lines = ["cfg policy=all auth=none track=0 nclients=%d timeout=10000" % ncl, "start", "sframe 0 10"]
+        for c in range(ncl):
+            lines.append("connect %d 1200" % c)
+        lines += ["sop spawn 1 1 0=1", "sframe 1 16"]
+        for c in range(ncl):
+            lines += ["deliver %d s2c 0 all" % c, "cframe %d" % c, "deliver %d c2s 0 all" % c]
+        seq, ent = 0, 2
+        ty = rng.choice(["SE0", "SE0", "ST"])
+        ch = gen_scripts.S2C_EVENT_CH[ty]
+        for _ in range(rng.randrange(2, 5)):                 # ticks whose update messages are held back
+            lines.append("sop spawn %d 1 0=%d" % (ent, ent))
+            ent += 1
+            for _ in range(rng.choice([1, 1, 2])):
+                seq += 1
+                lines.append("sop ev %s b %d" % (ty, seq))
+            lines.append("sframe 1 16")
+            lines += ["deliver 0 s2c %d all" % ch, "cframe 0"]          # the events arrive and are queued
+        seq += 1
+        lines += ["sop ev %s b %d" % (ty, seq), "sframe 1 16"]        # a fresh event whose tick brings no structural change
+        lines += ["deliver 0 s2c 0 all", "deliver 0 s2c %d all" % ch, "cframe 0", "cframe 0", "deliver 0 c2s 0 all"]
+        meta = dict(connected=list(range(ncl)), events=True)
+        sf = len(lines)
+        out.append(("queued-ticks-%d" % i, lines + gen_scripts.settle_lines(meta), sf))
+    return out
+
+
 def client_bursts(rng, tier):
     """several client events / triggers of one type written in ONE client frame, some of them naming an entity the client has no
     mapping for (hidden from it, not replicated, or not yet delivered): those are not sent, the others arrive exactly once, in
@@ -71,7 +103,7 @@ def client_bursts(rng, tier):
 def run(tier, seed, replay):
     kws = [dict(events=True, weights=dict(sev=4.0, cev=3.0, edeliver=6.0)), dict(events=True, nclients=3, sessions=True), dict(events=True, auth="custom", nclients=2), dict(events=True, nclients=3, weights=dict(session=0.6)),
            dict(events=True, nclients=2, sessions=True, quick_reconnect=0.6, weights=dict(session=0.9, sev=4.0, edeliver=5.0))]
-    return sim_check("C05", tier, seed, kws, n_quick=240, n_thorough=24000, oracle_props={"C05"}, custom_scripts=lambda rng, tier: long_sessions(rng, tier) + client_bursts(rng, tier),
+    return sim_check("C05", tier, seed, kws, n_quick=240, n_thorough=24000, oracle_props={"C05"}, custom_scripts=lambda rng, tier: long_sessions(rng, tier) + client_bursts(rng, tier) + queued_ticks(rng, tier),
                      rule_extra=", long-lived quiet connections next to fresh ones (update ticks of different encoding widths), events of five server types and three client types in both directions, all send modes, clients connecting, authorizing and disconnecting at arbitrary points",
                      extra_assumptions=["intended recipients of a dependent event are the connections that exist when it is written and are authorized when the tick flushes it (unauthorized connections only get independent events, C07)",
                                         "a reconnect happens after at least one client frame (C09's premise); otherwise the event queue of the old session survives (C05_quick_reconnect_receives_old_event)",
